@@ -16,7 +16,8 @@ class Untranslatable(Exception):
     pass
 
 
-KNOWN_ENUMS = {"Option": ["None", "Some"], "Result": ["Ok", "Err"], "ControlFlow": ["Continue", "Break"], "IpAddr": ["V4", "V6"], "SocketAddr": ["V4", "V6"]}
+KNOWN_ENUMS = {"Option": ["None", "Some"], "Result": ["Ok", "Err"], "ControlFlow": ["Continue", "Break"], "IpAddr": ["V4", "V6"], "SocketAddr": ["V4", "V6"],
+               "Entry": ["Occupied", "Vacant"], "RustcEntry": ["Occupied", "Vacant"], "Ordering": ["Less", "Equal", "Greater"]}
 
 
 # ------------------------------------------------------------------------------------------------
